@@ -161,8 +161,16 @@ def values(fl, rnd, key, fresh):
         MANAGERS.append(fm)
         if rnd.random() < 0.4:
             return fm  # a manager with exactly the registrations of the default one
+        if rnd.random() < 0.4:
+            # a manager made by copying the one in force (the default one, or the one of an enclosing context) and registering
+            # something more in the copy: the copy is the copy's
+            import copy as _copy
+
+            fm = _copy.deepcopy(fl.settings.factory_manager)
+            MANAGERS.append(fm)
         serial = len(SERIALS) + 1
         fm.term.constructors["Marker"] = type("Marker", (fl.Constant,), {"serial": serial})
+        fm.function.objects[f"marker{serial}"] = fl.Function.Element(f"marker{serial}", "marks the manager it was registered in", fl.Function.Element.Type.Function, lambda x: x, arity=1)
         SERIALS[id(fm)] = serial
         MANAGERS.append(fm)
         return fm
@@ -263,6 +271,19 @@ class Runner:
         ctx.hit("probe:Op.is_close")
         if exp_close != got_close:
             ctx.violation("Op.is_close does not follow the current tolerances", {"atol": atol, "rtol": rtol}, exp_close, got_close)
+        # single values follow the same rule as batches: |a - b| <= atol + rtol |b|
+        self.nprobe = getattr(self, "nprobe", 0) + 1
+        edge = [(b_ + f * (atol + rtol * abs(b_)), b_) for b_ in (1.0, 100.0, -2.5) for f in (0.9, 1.1, -0.9, -1.1) if atol + rtol * abs(b_) > 0]
+        for a_, b_ in ([(1.15, 1.0), (111.0, 100.0), (1.0, 1.3), (100.0, 111.0), (0.25, 0.26), (1.0, 1.0 + 1e-7)] + edge) if self.nprobe % 6 == 0 else edge[self.nprobe % 6 :: 6]:
+            want = bool(abs(a_ - b_) <= atol + rtol * abs(b_))
+            margin = abs(abs(a_ - b_) - (atol + rtol * abs(b_)))
+            if margin <= 1e-12 * max(1.0, abs(b_)):
+                continue  # (on the edge of the tolerance: rounding decides)
+            ctx.hit("probe:Op.is_close on single values")
+            forms = {"floats": fl.Op.is_close(a_, b_), "numpy scalars": fl.Op.is_close(np.float64(a_), np.float64(b_)), "arrays": fl.Op.is_close(np.array([a_, a_]), np.array([b_, b_]))}
+            for form, got in forms.items():
+                if bool(np.all(got)) != want:
+                    ctx.violation("Op.is_close does not follow the current tolerances", {"atol": atol, "rtol": rtol, "a": a_, "b": b_, "given as": form}, want, bool(np.all(got)))
         big_a = np.ones(20000)
         for gap in (0.4, 0.3):  # (0.3 is within the relative tolerance 0.25 of 1.3, and beyond every absolute one but 0.5)
             want = bool(gap <= atol + rtol * (1.0 + gap))
@@ -278,6 +299,22 @@ class Runner:
             real = vars(self.s)[ATTR[k]]
             if not same(real, model[k]):
                 ctx.violation("settings differ from the stack model", {"key": k}, show(model[k]), show(real))
+        # what was registered in one manager is known to that manager only (formulas are read with the function factory in force)
+        if model["factory_manager"] is not None:
+            mine = SERIALS.get(id(model["factory_manager"]))
+            known = sorted(k for k in fl.settings.factory_manager.function.objects if k.startswith("marker"))
+            ctx.hit("probe:functions registered in the current factory manager")
+            inherited = getattr(model["factory_manager"], "_vf_inherited", None)
+            if inherited is None:
+                # (a copied manager legitimately knows what its source knew when it was copied: noted once, at first sight)
+                inherited = [k for k in known if k != f"marker{mine}"]
+                try:
+                    model["factory_manager"]._vf_inherited = inherited
+                except Exception:
+                    pass
+            want_known = sorted(inherited + ([f"marker{mine}"] if mine else []))
+            if known != want_known:
+                ctx.violation("the function factory in force knows functions that were registered in another factory manager", {"manager_serial": mine}, want_known, known)
         # the factory manager is observed through those who build from it: an importer made just now and one made long before
         exp = SERIALS.get(id(model["factory_manager"]))
         # (not while the default manager is still to be made: asking for it would make it, and the probe must not change what it watches)
@@ -521,6 +558,7 @@ def run(ctx):
     ctx.exhaustive = True
     ctx.extra["exhaustive_space"] = "nesting depth 2 over all 28x28 single/double key subsets x 4 exception placements; 7x7 (named, assigned) pairs x {normal, exception}"
     ctx.require("hook:Settings.context", "event:enter", "event:exit:normal", "event:exit:exception", "exception_crossed_a_context", "assign:named", "assign:unnamed", "depth:2", "depth:3", "base_exception_crossed_a_context")
+    ctx.require("probe:Op.is_close on single values", "probe:functions registered in the current factory manager")
     ctx.require("event:library generator consumed step by step across contexts", *[f"environment:{e}" for e in ENVIRONMENTS])
     ctx.require("entered:prepared", "entered:exitstack", "entered:decorator", "event:context used as a decorator", "event:setting assigned between creation and entry of a context", "probe:Op.str:2-D array", "entered:decorator-recursive", "event:contexts left in the order they were entered", "probe:Op.is_close on a large batch")
 
